@@ -72,8 +72,53 @@ def ret_payload(k, rv):
 FINISH_FN = 14              # UFTRACE_TRIGGER=f14@finish; UFTRACE_SIGNAL=SIGUSR1@finish
 
 
+READ_FN = 15                # UFTRACE_TRIGGER=f15@read=proc/statm: "read" / "diff" EVENT records with a 24-byte payload
+EVENT_ID_READ_PROC_STATM, EVENT_ID_DIFF_PROC_STATM = 100001, 100003
+
+
+def statm_vals(k):
+    """what c04_prod's fake /proc/self/statm gives on its k-th read, as save_proc_statm stores it (kB, 4k pages)"""
+    return ((100 + 7 * k) * 4, (50 + 3 * k) * 4, (20 + k) * 4)
+
+
+def case_events(c, second=False):
+    """EVENT records the read trigger of f15 produces: (time of the ENTRY / EXIT record they go with, is_exit, id, payload)"""
+    out, stack, cnt = [], [], 0
+    for o in ((c.get("ops2") or []) if second else model_ops(c)):
+        if o[0] == "E":
+            v = None
+            if o[1] == READ_FN:
+                v = statm_vals(cnt)
+                cnt += 1
+                out.append((o[2], False, EVENT_ID_READ_PROC_STATM, struct.pack("<HQQQ", 24, *v)))
+            stack.append(v)
+        elif stack:
+            v = stack.pop()
+            if v is not None:
+                w = statm_vals(cnt)
+                cnt += 1
+                d = [(a - b) % (1 << 64) for a, b in zip(w, v)]
+                out.append((o[1], True, EVENT_ID_DIFF_PROC_STATM, struct.pack("<HQQQ", 24, *d)))
+    return out
+
+
+def coq_events(evs):
+    return "[" + "; ".join("(%d%%N, %s, {| r_time := %d%%N; r_type := 3%%N; r_depth := 0%%N; r_addr := %d%%N; r_pl := %s |})"
+                           % (t, coq.coq_bool(x), t, i, coq_bytes(pl)) for t, x, i, pl in evs) + "]"
+
+
+def no_big_records(c):
+    """an EVENT record with payload takes 48 bytes: keep f15 out of cases with smaller buffers"""
+    if c["cap"] < 64:
+        for key in ("ops", "ops2"):
+            if c.get(key):
+                c[key] = [("E", 11) + tuple(o[2:]) if (o[0] == "E" and o[1] == READ_FN) else o for o in c[key]]
+    return c
+
+
 def prod_env(with_args):
-    env = {"UFTRACE_FILTER": ";".join("!f%d" % k for k in NOTRACE), "UFTRACE_TRIGGER": "f%d@finish" % FINISH_FN,
+    env = {"UFTRACE_FILTER": ";".join("!f%d" % k for k in NOTRACE),
+           "UFTRACE_TRIGGER": "f%d@finish;f%d@read=proc/statm" % (FINISH_FN, READ_FN),
            "UFTRACE_SIGNAL": "SIGUSR1@finish"}
     if with_args:
         env["UFTRACE_ARGUMENT"] = ";".join("f%d@%s" % (k, ",".join(v)) for k, v in sorted(ARGSPEC.items()))
@@ -132,8 +177,8 @@ def gen_case(rng, boundary=None):
     if end == "signal" and ops[-1][0] == "E":
         sync[-1] = False        # (that entry hook only runs mtd_dtor: it is not an op of the model)
     e = rng.randrange(0, 9) if mode == "kill" else None
-    return {"cap": cap, "ops": ops, "sync": sync, "mode": mode, "e": e, "args": with_args, "end": end, "close": close,
-            "ops2": ops2, "sync2": sync2}
+    return no_big_records({"cap": cap, "ops": ops, "sync": sync, "mode": mode, "e": e, "args": with_args, "end": end,
+                           "close": close, "ops2": ops2, "sync2": sync2})
 
 
 def case_script(c, second=False):
@@ -191,12 +236,13 @@ def run_case(rec_exe, prod_exe, workdir, c, idx):
         f.write("\n".join(lines) + "\n")
     env = {k: v for k, v in os.environ.items() if not k.startswith("UFTRACE_")}
     env.update(prod_env(c["args"]))
+    t_run = time.time()
     try:
         p = subprocess.run(["timeout", "60", rec_exe, "kill", d, str(c["cap"] + 16), prod_exe, script] + actions,
                            env=env, capture_output=True, text=True, timeout=90)
     except subprocess.TimeoutExpired:
         return {"error": "timeout"}
-    res = {"rc": p.returncode, "stderr": p.stderr[-400:]}
+    res = {"rc": p.returncode, "stderr": p.stderr[-400:], "wall": time.time() - t_run}
     for l in p.stdout.splitlines():
         if l.startswith("STATUS "):
             res["status"] = l[7:]
@@ -250,7 +296,7 @@ def coq_case(c, r, f0):
     flush = (end == "trigger") if end else c["mode"] in ("segv", "abrt")
     nmo = len(model_ops(c))
     return ("{| tc_single := " + coq.coq_bool(SINGLE_BUMP) + "; tc_cap := %d; tc_ops := %s; tc_sync := [%s]; tc_kill := %s; tc_flush := %s; "
-            "tc_close := %d; tc_end := %d; tc_ops2 := %s; tc_sync2 := [%s]; "
+            "tc_close := %d; tc_end := %d; tc_ops2 := %s; tc_sync2 := [%s]; tc_evs := %s; tc_evs2 := %s; "
             "tc_shl := %s; tc_shf := %s; tc_wl := %s; tc_file := %s |}" % (
                 c["cap"], coq_ops(c, f0), "; ".join(coq.coq_bool(b) for b in c["sync"][:nmo]),
                 ("Some %d" % c["e"]) if c["mode"] == "kill" else "None",
@@ -258,6 +304,7 @@ def coq_case(c, r, f0):
                 c["close"] if c.get("close") is not None else nmo + 9,
                 {None: 0, "trigger": 1, "signal": 1, "tend": 1 if c.get("close") is not None else 2}[end],
                 coq_ops(c, f0, second=True), "; ".join(coq.coq_bool(b) for b in (c.get("sync2") or [])),
+                coq_events(case_events(c)), coq_events(case_events(c, second=True)),
                 coq_nats(r["shl"]), coq_bytes(r["shf"]), coq_nats(r["wl"]), coq_bytes(r["file"])))
 
 
@@ -328,7 +375,7 @@ def store_cases(ctx):
         for cap in (32, 48, 64):
             c = gen_case(rng, boundary=mode)
             c["cap"] = cap
-            cases.append(c)
+            cases.append(no_big_records(c))
     # kill after each store index of one op that writes several records with payload
     base = {"cap": 64, "args": True, "mode": "kill",
             "ops": [("E", 1, 1010, 77, 0), ("E", 3, 1020, 5, 6), ("E", 0, 1030, 0, 0), ("X", 1040, 9)]}
@@ -356,18 +403,34 @@ def store_cases(ctx):
         ops2 = [("E", 0, 2010, 1, 2), ("E", 3 if args else 10, 2020, 5, 6), ("X", 2030, 7), ("E", 11, 2040, 0, 0)]
         for cap in (48, 4080):
             for n2, mode, e in ((1, "kill", 0), (1, "kill", 1), (1, "kill", 2), (3, "kill", 1), (4, "segv", None), (4, "exit", None)):
-                if ctx.n(0, 1) == 0 and cap == 4080 and (mode == "exit" or e == 2):
+                if ctx.n(0, 1) == 0 and cap == 4080 and (mode == "exit" or e == 2 or not args):
                     continue        # (quick tier: a subset)
                 cases.append({"cap": cap, "args": args, "mode": mode, "ops": ops1, "sync": [False, False, cap == 48, False],
                               "e": e, "end": None, "close": None, "ops2": ops2[:n2], "sync2": [False, True, False, False][:n2],
                               "directed": "exec"})
+    # EVENT records with payload (record_event): f15@read=proc/statm gives a "read" event after f15's ENTRY and a "diff"
+    # event before its EXIT; killed after every store that the recorder can see while they are written
+    for args in (False, True):
+        for cap in (64, 4080):
+            evops = [("E", 0, 1010, 1, 2), ("E", READ_FN, 1020, 3, 4), ("E", 8, 1030, 0, 0), ("X", 1040, 0), ("X", 1050, 7), ("X", 1060, 8)]
+            for n, es in ((4, range(0, 7)), (5, range(0, 4))):
+                for e in es:
+                    if ctx.n(0, 1) == 0 and not ((cap == 64 and not args) or (cap == 4080 and args and e % 2 == 1)):
+                        continue        # (quick tier: a subset)
+                    cases.append({"cap": cap, "args": args, "mode": "kill", "ops": evops[:n], "sync": [False, False, n == 5, False, False][:n],
+                                  "e": e, "end": None, "close": None, "directed": "event-with-payload"})
+            for mode, n in (("segv", 2), ("abrt", 3), ("exit", 6), ("segv", 5)):
+                if ctx.n(0, 1) == 0 and (cap == 64) == args:
+                    continue
+                cases.append({"cap": cap, "args": args, "mode": mode, "ops": evops[:n], "sync": [False] * n, "e": None,
+                              "end": None, "close": None, "directed": "event-with-payload"})
     # killed inside the thread's very first hook call (mcount_prepare -> prepare_shmem_buffer): before REC_START 0,
     # after the buffer's flag is set, after the call
     for e in (0, 1, 2):
         for k, args in ((0, False), (1, True), (12, False)):
             cases.append({"cap": 64, "args": args, "mode": "kill", "ops": [("E", k, 1010, 5, 6)], "sync": [False], "e": e,
                           "end": None, "close": None, "directed": "first-hook-call"})
-    for _ in range(ctx.n(34, 800)):
+    for _ in range(ctx.n(26, 800)):
         cases.append(gen_case(rng))
     return cases
 
@@ -434,6 +497,8 @@ def run_store(ctx, objdir):
     with concurrent.futures.ThreadPoolExecutor(max_workers=8) as ex:
         results = list(ex.map(lambda ic: run_case(rec_exe, prod_exe, work, ic[1], ic[0]), enumerate(cases)))
     ctx.log("store-level tie: %d producer runs in %.1fs" % (len(cases), time.time() - t0))
+    slow = sorted(((r.get("wall", 0), r.get("status"), c.get("directed"), c["mode"]) for c, r in zip(cases, results)), reverse=True)[:6]
+    ctx.log("slowest store-level runs: %s" % (slow,))
     good_c, good_r = [], []
     ret_exe = (rec_exe, prod_exe, f0)
     for c, r in zip(cases, results):
@@ -463,6 +528,8 @@ def run_store(ctx, objdir):
             tags.append("store:kill-in-history-with-payload-records")
         if c.get("directed"):
             tags.append("store:directed-" + c["directed"])
+        if case_events(c) or case_events(c, second=True):
+            tags.append("store:EVENT-record-with-payload(record_event)")
         if i in dark and c.get("close") is not None:
             tags.append("store:thread-went-dark(REC_END/REC_START-lost)")
         if c.get("end"):
@@ -501,7 +568,7 @@ def gen_ops(rng, with_args, nops):
             stack.pop()
             ops.append(("X", t, rng.randrange(1 << 40)))
         else:
-            k = rng.choice([x for x in range(NFUNC) if x != FINISH_FN]) if with_args else rng.choice([0, 7, 8, 10, 11, 12])
+            k = rng.choice([x for x in range(NFUNC) if x not in (FINISH_FN, READ_FN)]) if with_args else rng.choice([0, 7, 8, 10, 11, 12])
             stack.append(k)
             ops.append(("E", k, t, rng.randrange(1 << 48), rng.randrange(1 << 32)))
     return ops
@@ -1279,6 +1346,8 @@ def run_e2e(ctx, objdir, out=None):
     with concurrent.futures.ThreadPoolExecutor(max_workers=6) as ex:
         obs = list(ex.map(lambda ic: e2e_run(uft, objdir, progs[ic[1]["prog"]], work, ic[0], ic[1]), enumerate(cases)))
     ctx.log("end-to-end: %d traced runs in %.1fs" % (len(cases), time.time() - t0))
+    slow = sorted(((round(ob.get("wall", 0), 1), c.get("kind") or c["how"], c["opts"], progs[c["prog"]].get("big")) for c, ob in zip(cases, obs)), reverse=True)[:8]
+    ctx.log("slowest record runs: %s" % (slow,))
     if out is not None:
         out["res"] = (progs, cases, obs)
         return
